@@ -39,7 +39,8 @@ _built = {}
 def _generate(sid):
     s = SHADOWS[sid]
     root = os.path.join(SHADOW_ROOT, sid)
-    ws = os.path.join(root, "ws")
+    final_ws = os.path.join(root, "ws")
+    ws = os.path.join(root, "ws.new")
     shutil.rmtree(ws, ignore_errors=True)
     os.makedirs(ws)
     crate = s["crate"]
@@ -82,7 +83,13 @@ def _generate(sid):
     os.makedirs(os.path.join(ws, ".cargo"))
     open(os.path.join(ws, ".cargo", "config.toml"), "w").write("[net]\noffline = true\n")
     shutil.copy(os.path.join(HARNESS, "Cargo.lock"), os.path.join(ws, "Cargo.lock"))
-    return ws
+    # content-based sync so that unchanged files keep their mtime (cargo then rebuilds only what changed)
+    ensure_dir(final_ws)
+    run(["rsync", "-rc", "--delete", "--exclude", "Cargo.lock", ws + "/", final_ws + "/"], timeout=120)
+    if not os.path.exists(os.path.join(final_ws, "Cargo.lock")):
+        shutil.copy(os.path.join(ws, "Cargo.lock"), os.path.join(final_ws, "Cargo.lock"))
+    shutil.rmtree(ws, ignore_errors=True)
+    return final_ws
 
 
 def build_shadow(sid):
